@@ -197,6 +197,12 @@ def include_graph_inv(rng, nclasses=None, cyclic=False, refs=0.25, missing=0.0, 
             inv_sel = {v: k for k, v in sel_defs.items() if not v.startswith('.')}
             roots = [('${%s}' % inv_sel[x]) if x in inv_sel and rng.random() < 0.4 else x for x in roots]
         ncl = ['sel'] + roots
+        if rng.random() < 0.08:
+            # a class that carries the node's own name, included by the node (names of nodes and of
+            # classes live in different spaces)
+            inv.classes[('n%d.yml' % ni,)] = doc([], ['same'] if apps else None, ('m', [(S('trace'), L(S('n%d' % ni)))]))
+            inv.universe.add('n%d' % ni)
+            ncl.insert(rng.randint(1, len(ncl)), 'n%d' % ni)
         if missing and rng.random() < missing:
             ncl.insert(rng.randint(1, len(ncl)), rng.choice(missing_names))
         nparams = [(S('trace'), L(S('NODE'))), (S('k'), V.scalar(rng))]
